@@ -183,11 +183,13 @@ type GuardOpt struct {
 // FailsWhen: fn has a branch that leads only to error/panic exits when cond holds; the branch lies on
 // every success path (unless Conditional) and dominates every call to opt.Before.
 func (c *Ctx) FailsWhen(fnSpec, cond, desc string, opt GuardOpt) {
+	role := "failswhen/" + cond + opt.Role
+	cond, opt.Before = c.X(cond), c.X(opt.Before)
+	opt.Context = c.xs(opt.Context)
 	f := c.Fn(fnSpec)
 	if f == nil {
 		return
 	}
-	role := "failswhen/" + cond + opt.Role
 	fbs := failBranches(f)
 	var hits []failBranch
 	var seen []string
@@ -266,11 +268,12 @@ func (c *Ctx) ifPos(iff *ssa.If, f *ir.Func) string {
 
 // OnlyWhen: every call to callee in fn happens under condition cond (a dominating branch edge).
 func (c *Ctx) OnlyWhen(fnSpec, callee, cond, desc string) {
+	role := "onlywhen/" + callee + "/" + cond
+	callee, cond = c.X(callee), c.X(cond)
 	f := c.Fn(fnSpec)
 	if f == nil {
 		return
 	}
-	role := "onlywhen/" + callee + "/" + cond
 	calls := c.sites(f, callee)
 	if len(calls) == 0 {
 		c.add("G", fnSpec, role, desc, report.Violated, "no call to "+callee, c.fnPos(f))
@@ -380,11 +383,13 @@ func valueFailsWhenNonNil(f *ir.Func, ev ssa.Value, depth int) bool {
 // CheckedCall: fn calls callee with arguments matching argPats on every success path and fails when it
 // returns an error.
 func (c *Ctx) CheckedCall(fnSpec, callee string, argPats []string, desc, role string) {
+	r := "checked/" + callee + role
+	callee = c.X(callee)
+	argPats = c.xs(argPats)
 	f := c.Fn(fnSpec)
 	if f == nil {
 		return
 	}
-	r := "checked/" + callee + role
 	var hits []ssa.CallInstruction
 	var seen []string
 	for _, call := range c.sites(f, callee) {
@@ -422,4 +427,41 @@ func (c *Ctx) CheckedCall(fnSpec, callee string, argPats []string, desc, role st
 		return
 	}
 	c.add("G", fnSpec, r, desc, report.OK, short(f.CalleeName(checked[0])+"("+joinTerms(f.CallArgs(checked[0]))+")"), c.posOf(checked[0]))
+}
+
+// OnlyWhenReturn: every return of fn whose result 0 matches valPat happens under condition cond, and at
+// least one such return exists.
+func (c *Ctx) OnlyWhenReturn(fnSpec, valPat, cond, desc string) {
+	role := "onlywhenreturn/" + valPat
+	valPat, cond = c.X(valPat), c.X(cond)
+	f := c.Fn(fnSpec)
+	if f == nil {
+		return
+	}
+	n := 0
+	for _, b := range f.Fn.Blocks {
+		ret, ok := b.Instrs[len(b.Instrs)-1].(*ssa.Return)
+		if !ok || len(ret.Results) == 0 {
+			continue
+		}
+		if !ir.MatchAny(valPat, f.Term(ret.Results[0])) {
+			continue
+		}
+		n++
+		found := false
+		for _, g := range f.GuardsAt(b) {
+			if matchCondAny(cond, Normalize(f.Term(g.Cond), g.Polarity)) {
+				found = true
+			}
+		}
+		if !found {
+			c.add("P", fnSpec, role, desc, report.Violated, "return of "+valPat+" not under condition "+cond, c.posOf(ret))
+			return
+		}
+	}
+	if n == 0 {
+		c.add("P", fnSpec, role, desc, report.Violated, "no return of "+valPat, c.fnPos(f))
+		return
+	}
+	c.add("P", fnSpec, role, desc, report.OK, fmt.Sprintf("%d return(s)", n), c.fnPos(f))
 }
